@@ -19,9 +19,9 @@ def run_check(pid, tier="quick", seed=0, sources=None, quiet=False):
     prog = Program(sources=sources)
     rep = Report(pid, tier, seed)
     for m in sorted(prog.modules.values(), key=lambda m0: m0.name):
-        for owner, cur, old in getattr(m, "restored_names", ()):
-            rep.note("private helper %s.%s%s is read as %s (same owner, kind, parameters and referrers as the helper the rules know "
-                     "under that name; see odmlsa/roles.py)" % (m.name, owner + "." if owner else "", cur, old))
+        for owner, now, cur, old in getattr(m, "restored_names", ()):
+            rep.note("private helper %s.%s%s is read as %s%s (matched by its role: kind, parameters, body and referrers of the helper the "
+                     "rules know under that name; see odmlsa/roles.py)" % (m.name, now + "." if now else "", cur, owner + "." if owner else "", old))
     try:
         mod.run(prog, rep)
     except Exception as exc:
